@@ -25,14 +25,14 @@ func TestCheck(t *testing.T) {
 	ev = drv.NewEvidence("C05", "exploration", rule)
 	nBundles, k := 12, 16
 	if drv.Thorough() {
-		nBundles, k = 150, 16
+		nBundles, k = 80, 16
 	}
 	for _, p := range corpus.All() {
 		diff(p.Name, p.Files, [][]string{{}}, nil)
 	}
 	nUnits := 40
 	if drv.Thorough() {
-		nUnits = 600
+		nUnits = 300
 	}
 	units := make([]dcegen.Prog, nUnits)
 	for i := range units {
